@@ -25,31 +25,45 @@ CONSTANTS Kinds,      \* definition kinds in this configuration
 \* value it holds, or Execute / ExecuteWithContext of a PROGRAM COMPILED BEFORE the history began
 \* (nothing is compiled at the use: no global slot is added)
 Vias  == {"eval", "ctx", "host", "prog", "progctx"}
-Whats == {"busy", "blocked", "expired"}
+\* "compiling": the evaluation is cancelled while its source is still being LOADED (it imports a source package
+\* and is held in the source file system): the call returns the context's error, the goroutine of the
+\* evaluation is left behind and goes on - loading, compiling, entering execution - when it is RELEASED, at
+\* any later point of the history.  Whatever it does then, it is an evaluation that was cancelled.
+Whats == {"busy", "blocked", "expired", "compiling"}
 \* definitions whose use waits (single-clause select, two-clause select, receive) before it counts
 Blocking == {"selfn", "sel2fn", "recvfn"}
 
 VARIABLES count,   \* kind -> number of completed uses
           hist,    \* the steps so far, each with its predicted return value
           ncancel, \* cancelled evaluations so far
-          fresh    \* TRUE when an evaluation has completed since the last cancelled one
-vars == <<count, hist, ncancel, fresh>>
+          fresh,   \* TRUE when an evaluation has completed since the last cancelled one
+          parked   \* an evaluation cancelled while loading its source is held in the file system
+vars == <<count, hist, ncancel, fresh, parked>>
 
-Init == count = [k \in Kinds |-> 0] /\ hist = <<>> /\ ncancel = 0 /\ fresh = TRUE
+Init == count = [k \in Kinds |-> 0] /\ hist = <<>> /\ ncancel = 0 /\ fresh = TRUE /\ parked = FALSE
 
 Use(k, via) ==
     /\ Len(hist) < MaxLen
     /\ count' = [count EXCEPT ![k] = @ + 1]
     /\ hist' = Append(hist, [op |-> "use", kind |-> k, via |-> via, what |-> "", ret |-> count[k] + 1])
     /\ fresh' = (fresh \/ via \in {"eval", "ctx"})
-    /\ UNCHANGED ncancel
+    /\ UNCHANGED <<ncancel, parked>>
 
 CancelledEval(w) ==
     /\ Len(hist) < MaxLen
+    /\ w = "compiling" => ~parked
     /\ hist' = Append(hist, [op |-> "cancel", kind |-> "", via |-> "", what |-> w, ret |-> 0])
     /\ ncancel' = ncancel + 1
     /\ fresh' = FALSE
+    /\ parked' = (parked \/ w = "compiling")
     /\ UNCHANGED count
+
+\* the goroutine left behind by the evaluation cancelled while loading is released: it changes nothing
+Release ==
+    /\ Len(hist) < MaxLen /\ parked
+    /\ hist' = Append(hist, [op |-> "release", kind |-> "", via |-> "", what |-> "", ret |-> 0])
+    /\ parked' = FALSE
+    /\ UNCHANGED <<count, ncancel, fresh>>
 
 (* Excluded_F_C10_1 / Excluded_F_C10_2: the random tier does not use function   *)
 (* literals stored in variables after a cancelled evaluation, nor host-held     *)
@@ -67,19 +81,21 @@ CancelledInDef(k) ==
     /\ hist' = Append(hist, [op |-> "cancel", kind |-> k, via |-> "", what |-> "indef", ret |-> 0])
     /\ ncancel' = ncancel + 1
     /\ fresh' = FALSE
-    /\ UNCHANGED count
+    /\ UNCHANGED <<count, parked>>
 
 Next == \/ \E k \in Kinds, via \in Vias : Allowed(k, via) /\ Use(k, via)
         \/ \E w \in Whats : CancelledEval(w)
         \/ \E k \in Kinds \cap Blocking : CancelledInDef(k)
+        \/ Release
 
 \* simulation: kind of step first, then its parameters
 NextSim ==
     LET z == hist IN
-    IF RandomElement(1..3) = 1
+    IF parked /\ RandomElement(1..3) = 1 THEN Release
+    ELSE IF RandomElement(1..3) = 1
     THEN (IF Kinds \cap Blocking # {} /\ RandomElement(1..2) = 1
           THEN CancelledInDef(RandomElement(Kinds \cap Blocking))
-          ELSE CancelledEval(RandomElement(Whats)))
+          ELSE CancelledEval(RandomElement(IF parked THEN Whats \ {"compiling"} ELSE Whats)))
     ELSE LET kv == {p \in Kinds \X Vias : Allowed(p[1], p[2])} IN
          kv # {} /\ LET p == RandomElement(kv) IN Use(p[1], p[2])
 
@@ -89,7 +105,7 @@ SpecSim == Init /\ [][NextSim]_vars
 (* The property on the model: a cancelled evaluation is a stuttering step of the *)
 (* definitions' state, and every use returns one more than the previous use of   *)
 (* the same definition.                                                          *)
-CancelIsStutter == [][((\E w \in Whats : CancelledEval(w)) \/ (\E k \in Kinds \cap Blocking : CancelledInDef(k))) => UNCHANGED count]_vars
+CancelIsStutter == [][((\E w \in Whats : CancelledEval(w)) \/ (\E k \in Kinds \cap Blocking : CancelledInDef(k)) \/ Release) => UNCHANGED count]_vars
 UsesCountUp ==
     \A i \in 1..Len(hist) : hist[i].op = "use" =>
         hist[i].ret = 1 + Cardinality({j \in 1..(i-1) : hist[j].op = "use" /\ hist[j].kind = hist[i].kind})
